@@ -57,6 +57,8 @@ func runC11(p *eng.Prog, r *eng.Report, tier string) {
 	c11ElementIsCharData(c, "C11.14")
 	c11LengthLimitsOnCanonicalParts(c, "C11.15")
 	c11CodecsVerbatim(c, "C11.16")
+	c11ChecksCoverThePart(c, "C11.18")
+	c11IPLiteralsVerbatim(c, "C11.19")
 	// ---- C11.1 who may write ---------------------------------------------------
 	allowed := map[string]bool{"jid.New": true, "jid.JID.WithLocal": true, "jid.JID.WithDomain": true, "jid.JID.WithResource": true, "jid.JID.Bare": true, "jid.JID.Domain": true,
 		"jid.(*JID).UnmarshalXML": true, "jid.(*JID).UnmarshalXMLAttr": true, "jid.NewUnsafe": true}
@@ -1142,4 +1144,110 @@ func c11SplitString(c *cx, id string) {
 		c09IndexID(c, id, sp, "jid.Parse")
 	}
 
+}
+
+// c11ChecksCoverThePart (C11.18): the length and forbidden-character checks
+// of a constructor look at exactly the part the returned JID will report: the
+// slice handed to localChecks is data[:L] and the one handed to
+// resourceChecks is data[L+D:], where L and D are what the constructor stores
+// as locallen and domainlen (its JID literal, its stores into the two fields,
+// or the receiver's own values). A bound computed from something else - the
+// raw length before case mapping, the length of a buffer that was reassigned
+// two lines earlier - checks an empty or shifted window: over-long or
+// forbidden parts are accepted and Parse(j.String()) fails.
+func c11ChecksCoverThePart(c *cx, id string) {
+	n := 0
+	for _, name := range []string{"New", "JID.WithLocal", "JID.WithResource"} {
+		f := c.fn(id, "jid", name)
+		if f == nil {
+			continue
+		}
+		L, D := "+recv.locallen", "+recv.domainlen"
+		for _, lit := range f.WalkLits("jid.JID") {
+			if v := structLitField(lit, "locallen"); v != nil {
+				L = affine(f, v)
+			}
+			if v := structLitField(lit, "domainlen"); v != nil {
+				D = affine(f, v)
+			}
+		}
+		for _, w := range f.FieldWrites("jid.JID.locallen") {
+			if w.RHS != nil {
+				L = affine(f, w.RHS)
+			}
+		}
+		for _, w := range f.FieldWrites("jid.JID.domainlen") {
+			if w.RHS != nil {
+				D = affine(f, w.RHS)
+			}
+		}
+		sum := func(a, b string) string {
+			var t []string
+			for _, x := range strings.Split(a+b, "+") {
+				if x != "" {
+					t = append(t, "+"+x)
+				}
+			}
+			sort.Strings(t)
+			return strings.Join(t, "")
+		}
+		for _, cl := range f.AllCalls() {
+			cid := f.CalleeID(cl)
+			isLocal, isRes := strings.HasSuffix(cid, "jid.localChecks"), strings.HasSuffix(cid, "jid.resourceChecks")
+			if (!isLocal && !isRes) || len(cl.Args) != 1 {
+				continue
+			}
+			n++
+			sl, ok := ast.Unparen(cl.Args[0]).(*ast.SliceExpr)
+			if !ok {
+				c.r.Check(id, f, "window of "+cid, "the argument is a slice of the buffer", cl.Pos(), false, "argument is "+f.Norm(cl.Args[0], nil))
+				continue
+			}
+			if isLocal {
+				got := affine(f, sl.High)
+				c.r.Check(id, f, "window of localChecks", "E-aff: localChecks sees data[:L], L being what is stored as locallen ("+L+")", cl.Pos(), sl.Low == nil && got == L, "window is ["+affine(f, sl.Low)+":"+got+"]")
+			} else {
+				got := affine(f, sl.Low)
+				c.r.Check(id, f, "window of resourceChecks", "E-aff: resourceChecks sees data[L+D:], L and D being what is stored as locallen and domainlen ("+sum(L, D)+")", cl.Pos(), sl.High == nil && got == sum(L, D), "window is ["+got+":"+affine(f, sl.High)+"]")
+			}
+		}
+	}
+	c.r.Floor(id, "windows of the part checks", n, 4)
+}
+
+// c11IPLiteralsVerbatim (C11.19): a domainpart that is an IP literal is
+// accepted as it is written: the two short-circuit returns of
+// normalizeDomainpart hand back the parameter itself, the bracketed form only
+// for an address that is not an IPv4 one (To4() == nil), the bare form only
+// for one that is (To4() != nil). Rewriting the literal ("canonical text
+// form") or widening the guard turns [::ffff:192.0.2.1] into [192.0.2.1],
+// which the same function refuses: the result does not parse again.
+func c11IPLiteralsVerbatim(c *cx, id string) {
+	f := c.fn(id, "jid", "normalizeDomainpart")
+	if f == nil {
+		return
+	}
+	g := f.Graph()
+	n := 0
+	for _, rs := range g.Returns {
+		if len(rs.Results) != 2 || g.RetKindOf(rs) == eng.RetError {
+			continue
+		}
+		pt, _ := g.Where(rs)
+		facts := g.FactsAt(pt)
+		ip := false
+		for _, a := range facts {
+			if strings.HasPrefix(a, "!eq(net.ParseIP(") {
+				ip = true // the parse succeeded on every path to this return
+			}
+		}
+		if !ip {
+			continue
+		}
+		n++
+		v := f.Norm(rs.Results[0], &pt)
+		c.r.Check(id, f, "IP literal returned", "P: an IP literal is returned as it was given", rs.Pos(), v == "p0" || strings.HasPrefix(v, "local:p0<"), "returns "+v)
+		c.domAny(id, f, rs, "IP literal accepted [address family]", []string{"eq(net.IP.To4[net.ParseIP(*[1:*])](),nil)", "!eq(net.IP.To4[net.ParseIP(local:p0<string>)](),nil)", "!eq(net.IP.To4[net.ParseIP(p0)](),nil)"})
+	}
+	c.r.Floor(id, "IP literal short circuits in normalizeDomainpart", n, 2)
 }
